@@ -256,6 +256,13 @@ Fp(v) == <<TLCFP(v), TLCFP(<<v, 1>>)>>
 EmitEdge == PrintT(<<"VF-EDGE", ToJson([s |-> Fp(View), d |-> Fp(View'), step |-> hist'[Len(hist')],
                                         setup |-> IF Steps = 0 THEN hist[1] ELSE [a |-> "-"]])>>)
 
+\* ---- refinement: per account key, every step of this model is a step of the abstract accounting machine AcctInd
+\* (whose Conservation Apalache proves inductive for unbounded integers), or leaves the account untouched
+Abs(k) == INSTANCE AcctInd WITH cost <- st.acct[k].cost, acct <- st.acct[k].quota,
+                                res <- Reserved(st, KeyU(k), KeyG(k)), credited <- h.credited[k], used <- h.used[k],
+                                mode <- RType(KeyU(k), KeyG(k)), UMax <- 8, QMax <- 8, AMax <- 8
+RefinesAcct == [][\A k \in Keys : Abs(k)!Next \/ UNCHANGED Abs(k)!vars]_vars
+
 \* ---- invariants (one per property clause) ----
 \* a violated invariant prints the offending behaviour as JSON so that it can be replayed into the code
 Holds(tag) == tag \notin flags \/ (PrintT(<<"VF-CEX", ToJson(hist)>>) /\ FALSE)
